@@ -631,7 +631,7 @@ class Executor:
 
     def handler_classes(self, node) -> List[str]:
         if isinstance(node, ast.Name):
-            return [node.id]
+            return [T.classes().local(node.id, self.module)]
         if isinstance(node, ast.Tuple):
             return [n for e in node.elts for n in self.handler_classes(e)]
         raise Unsupported("exception handler type expression")
@@ -1011,8 +1011,9 @@ class Executor:
         return [(st, "val", self.global_name(name, node))]
 
     def global_name(self, name: str, node) -> SV:
-        if name in T.classes():
-            return SV("class", K(name))
+        lname = T.classes().local(name, self.module)
+        if lname in T.classes():
+            return SV("class", K(lname))
         g = getattr(self.contract, "globals", {})
         if name in g:
             return g[name](self)
